@@ -42,6 +42,7 @@ type FuncResult struct {
 	File        string
 	Trusted     bool
 	SpecChecks  []specCheck
+	TaggedOnly  bool // sweep result: only obligations explicitly tagged with the property are kept
 }
 
 func (p *Program) verifyFunc(name string, c *FuncContract) (res *FuncResult) {
@@ -80,8 +81,10 @@ func (p *Program) verifyFunc(name string, c *FuncContract) (res *FuncResult) {
 		vc.declare(t.S, s)
 		fr.params = append(fr.params, tv(t))
 		ex.typeInvariant(st, t, prm.Type())
+		ex.assumeTypeInv(st, tv(t), prm.Type())
 	}
 	pkg := fnPkg(fn)
+	capNames := captureNames(c)
 	for _, fv := range fn.FreeVars {
 		// closures verified on their own: free variables are opaque cells
 		et := fv.Type().(*types.Pointer).Elem()
@@ -91,7 +94,9 @@ func (p *Program) verifyFunc(name string, c *FuncContract) (res *FuncResult) {
 		t := Term{"fv_" + sanitize(fv.Name()), cell.sort}
 		vc.declare(t.S, cell.sort)
 		st.cells[cell] = tv(t)
-		st.shared[cell] = true
+		if !capNames[fv.Name()] {
+			st.shared[cell] = true // may be assigned by the creator or by other closures at any time
+		}
 		fr.free = append(fr.free, Val{K: VPtr, P: &Ptr{Kind: PCell, Cell: cell, Typ: et}})
 	}
 	// global assumptions
@@ -120,6 +125,14 @@ func (p *Program) verifyFunc(name string, c *FuncContract) (res *FuncResult) {
 		}
 		st.assume(f)
 	}
+	for _, r := range c.Captures {
+		f := env.Bool(r.Expr)
+		if len(env.errs) > 0 {
+			vc.fatalf("%s captures %q: %s", name, r.Text, strings.Join(env.errs, "; "))
+			break
+		}
+		st.assume(f)
+	}
 	for _, r := range c.Assumes {
 		f := env.Bool(r.Expr)
 		if len(env.errs) > 0 {
@@ -128,6 +141,10 @@ func (p *Program) verifyFunc(name string, c *FuncContract) (res *FuncResult) {
 		}
 		st.assume(f)
 		vc.usedExt["assumed precondition of "+name+" (not checked at call sites): "+r.Text] = true
+	}
+	if fn.Name() == "init" && fn.Pkg != nil && fn.Synthetic != "" {
+		// the package initialiser runs once: its guard is still false
+		st.ghost["global:g_"+sanitize(fn.Pkg.Pkg.Name()+"_init$guard")] = Term{"false", SBool}
 	}
 	vc.entry = st.clone()
 	fr.oldState = vc.entry
@@ -213,6 +230,15 @@ func (p *Program) verifyFunc(name string, c *FuncContract) (res *FuncResult) {
 			if c.HasMod {
 				ex.frameObligations(fr, st2, c, post)
 			}
+			for _, d := range c.GlobalInvs {
+				if g := p.globalByName(d.Name); g != nil {
+					gt := ex.globalTerm(st2, g)
+					f, ground := ex.invFormula(st2, d, gt, g.Type().(*types.Pointer).Elem(), true)
+					vc.curProps = d.Props
+					ex.obligationFull(fr, st2, "globalinv", fmt.Sprintf("invariant of %s after package initialisation: %s", d.Name, d.Inv.Text), f, false, sanitize(d.Name), ground)
+					vc.curProps = nil
+				}
+			}
 		})
 	}
 	res.Obligations = vc.obligations
@@ -285,6 +311,7 @@ func (ex *Exec) frameObligations(fr *Frame, st *State, c *FuncContract, env *Env
 func (vc *VC) preamble() string {
 	var b strings.Builder
 	b.WriteString(arithPrelude)
+	spAx := vc.strPredAxioms() // may register constructors of the interface datatype: before the sorts are printed
 	var folds []string
 	for _, n := range vc.foldOrder {
 		folds = append(folds, vc.folds[n].axiomText)
@@ -301,10 +328,20 @@ func (vc *VC) preamble() string {
 		}
 		fmt.Fprintf(&b, "(assert (distinct %s))\n", strings.Join(names, " "))
 	}
+	// uninterpreted spec functions may occur in fold bodies
+	for _, d := range vc.decls {
+		if strings.HasPrefix(d, "(declare-fun uf_") {
+			b.WriteString(d)
+			b.WriteString("\n")
+		}
+	}
 	for _, f := range folds {
 		b.WriteString(f)
 	}
 	for _, d := range vc.decls {
+		if strings.HasPrefix(d, "(declare-fun uf_") {
+			continue
+		}
 		b.WriteString(d)
 		b.WriteString("\n")
 	}
@@ -312,6 +349,7 @@ func (vc *VC) preamble() string {
 		b.WriteString(a)
 		b.WriteString("\n")
 	}
+	b.WriteString(spAx)
 	return b.String()
 }
 
@@ -423,6 +461,15 @@ func (p *Program) verifySpec(sc specCheck) *FuncResult {
 	c.Alias = sc.spec.Params
 	c.SpecOf = sc.spec.Name
 	c.Name = name
+	if own := p.contracts.Funcs[name]; own != nil {
+		// the function's own contract supplies the proof hints (loop invariants) and further clauses
+		c.LoopInv, c.LoopDec = own.LoopInv, own.LoopDec
+		c.Requires = append(append([]*Clause{}, c.Requires...), own.Requires...)
+		c.Captures = own.Captures
+	}
+	if c.LoopInv == nil {
+		c.LoopInv, c.LoopDec = map[int][]*Clause{}, map[int]*Clause{}
+	}
 	if _, ok := p.funcs[name]; !ok {
 		p.funcs[name] = sc.fn
 	}
